@@ -261,7 +261,9 @@ class C06(Check):
                    "kernels run on symbolic observations, observation times, x0, theta, weights and spread; the integrator is its contract "
                    "(row i = flow value X(t_i)).  z3 proves cost(theta) == the class's reference formula applied to (y[i,j], X_{state_name[j]}(t_i)) "
                    "for observed-state tuples in every order (incl. non-model order), target_param subsets/orders, scalar/per-state/full spread, "
-                   "and that the parameter values and x0 in force during integration are the supplied ones.")
+                   "and that the parameter values, x0 and initial time in force during integration are the supplied ones.  Typed units enumerate "
+                   "what a real number cannot express: integer-typed observation times (array/list) with a fractional t0, int64 observations, "
+                   "and every accepted weight form (full matrix, per-state vector, single scalar).")
     stubs = ["scipy.integrate.ode contract (measured buffer policy)", "np.linalg.eig fixed (constructor only)", "scipy.stats.poisson.logpmf closed form", "gammaln -> lgamma UF"]
     assumptions = ["integrator accuracy (C02's assumption)", "floats as reals", "valid domain (positive predictions/observations for likelihood losses)"]
 
